@@ -107,14 +107,22 @@ def run(ck):
         for at in range(0, len(sel), per_ring):
             n = 1 + nring % 4
             ai = (nring // 2) % len(ALPHABETS)
-            ids = ring_ids(ck.rng, n, list(khashes[ai].values()), (nring // 4) % 4)
+            ids = ring_ids(ck.rng, n + 1, list(khashes[ai].values()), (nring // 4) % 4)
+            spare = ids.pop(ck.rng.randrange(len(ids)))          # one more node: built with the ring, joins only in the last case of the ring
             stores = stores_for(ck.rng, n, nring)
+            spare_store = "sqlite" if nring % 3 else "memory"
             order = ck.seed * 100000 + nring
+            churn = "leave" if (n >= 2 and nring % 2) else "join"
             nring += 1
-            for ci in sel[at:at + per_ring]:
+            batch = sel[at:at + per_ring]
+            for bi, ci in enumerate(batch):
                 content, exp = norm(table[ci])
+                # the last content of every ring is listed a second time after a membership change (a member leaves / the spare node joins):
+                # prefer one that stores something
+                last = bi == len(batch) - 1
                 cases.append(({"ids": [str(i) for i in ids], "stores": stores, "order": order, "content": content,
-                               "prefixes": [p for p, _ in exp], "reuse": True, "alphabet": ALPHABETS[ai]}, exp))
+                               "prefixes": [p for p, _ in exp], "reuse": True, "alphabet": ALPHABETS[ai],
+                               "spare": str(spare), "spare_store": spare_store, "churn": churn if last else ""}, exp))
         ck.extra["rings_built"] = nring
     outs = ck.drive(b, [], input_lines=[c for c, _ in cases], timeout=3000)
     byi = {o["i"]: o["o"] for o in outs if "i" in o}
@@ -141,14 +149,24 @@ def run(ck):
         ck.count(json.dumps([c["ids"], c["stores"], c["content"]]), len(stored) > 0)
         rep = {"case": c, "expected": exp}
         where = {k: ids.index(owner(ids, khash[k])) for k, _ in stored if k in khash}
-        for node, pi, got, err in (o.get("lists") or []):
+        if c.get("churn") and o.get("churn_err", "ok") != "ok":
+            raise vf.Infra("membership change (%s) in ring %s failed: %s" % (c["churn"], c["ids"], o["churn_err"]))
+        if c.get("churn") and not o.get("stable2", True):
+            ck.notes.append("ring %s did not reach a maintenance fixpoint after the %s" % (c["ids"], c["churn"]))
+        phases = [("", o.get("lists") or [])]
+        if c.get("churn") and o.get("stable2"):
+            phases.append((" after node index %s %s" % (o.get("churned"), "left" if c["churn"] == "leave" else "(id %s, %s store) joined" % (c["spare"], c["spare_store"])),
+                           o.get("lists2") or []))
+            ck.extra["listings_after_a_membership_change"] = ck.extra.get("listings_after_a_membership_change", 0) + len(o.get("lists2") or [])
+        all_ids = ids + [int(c["spare"])] if c.get("spare") else ids
+        for phase, (node, pi, got, err) in [(ph, x) for ph, ls in phases for x in ls]:
             nlists += 1
             p, want = exp[pi]
             got = [list(x) for x in got]
             if err != "ok":
                 ck.violation("C10:error:%s" % err.split(":")[1 if ":" in err else 0],
-                             "ListKeys(%r) asked at node %d (id %d) of the stable %d-node ring %s (stores %s) failed with %s; stored content %s"
-                             % (p, node, ids[node], len(ids), ids, c["stores"], err, stored), rep)
+                             "ListKeys(%r) asked at node %d (id %d) of the stable %d-node ring %s (stores %s)%s failed with %s; stored content %s"
+                             % (p, node, all_ids[node], len(ids), ids, c["stores"], phase, err, stored), rep)
                 continue
             if got == want:
                 continue
@@ -165,10 +183,10 @@ def run(ck):
                 cls = "duplicate"
             else:
                 cls = "extra:%s" % "+".join(sorted(set(x[1] for x in extra)))
-            ck.violation("C10:%s" % cls,
-                         "ListKeys(%r) asked at node %d (id %d) of the stable %d-node ring %s (stores %s, keys held by node index %s) returned %s; "
+            ck.violation("C10:%s%s" % (cls, (":after-" + c["churn"]) if phase else ""),
+                         "ListKeys(%r) asked at node %d (id %d) of the stable %d-node ring %s (stores %s, keys held by node index %s)%s returned %s; "
                          "stored content is %s, so exactly %s is expected (missing %s, unexpected %s, duplicated %s); letters stored as bytes %s"
-                         % (p, node, ids[node], len(ids), ids, c["stores"], where, got, stored, want, missing, extra, [list(x) for x in dup], c.get("alphabet") or "themselves"), rep)
+                         % (p, node, all_ids[node], len(ids), ids, c["stores"], where, phase, got, stored, want, missing, extra, [list(x) for x in dup], c.get("alphabet") or "themselves"), rep)
         if i % max(1, len(cases) // 5) == 0:
             ck.sample({"ring_ids": c["ids"], "stores": c["stores"], "content": c["content"], "key_held_by_node_index": where,
                        "distinct_owners": len(owners), "answers": [[n_, exp[pi][0], got] for n_, pi, got, _ in o["lists"][:4]]})
@@ -183,7 +201,7 @@ def run(ck):
                "declared answer for the prefixes '', a, ab, abc, b, c; quick runs a seeded sample of 640 assignments (always including nothing / everything / one "
                "kind everywhere), thorough all of them; each is stored through a real ring of 1..4 nodes (ring sizes cycle; node ids uniformly random, inside "
                "random arcs between key identifiers, at key identifier +/- 1, or adjacent; memory and SQLite stores alternating, all-SQLite or random) by "
-               "Put / PrefixAppend (1 or 2 children) / Acquire asked at seeded nodes, the letters stored as themselves or as the bytes ff/00/fe, 00/ff/80 (per ring), and ListKeys is asked at every node for every prefix; "
+               "Put / PrefixAppend (1 or 2 children) / Acquire asked at seeded nodes (the last content of every ring is listed again after a member left or one more node - memory or SQLite store - joined), the letters stored as themselves or as the bytes ff/00/fe, 00/ff/80 (per ring), and ListKeys is asked at every node for every prefix; "
                "evaluations = (case, node, prefix) listings compared as multisets; non-trivial = cases that store at least one (key, kind); distinct = distinct (ring, content)")
     ck.assumptions += ["'stable ring' = a fixpoint of the real stabilize / checkPredecessor / fixFinger with background tasks parked (as in C01)",
                        "simple values are never empty (a key whose value was set to empty is listed as SIMPLE by SQLite: known finding of C16)",
